@@ -105,7 +105,38 @@ def _stable_construct(m, f, call, what):
                 hs.append("except (%s)" % ", ".join(n or "?" for n in names))
         return " in ".join(hs)
     mine = ctx(call)
-    same = [c for c, w in pycalls.mutator_calls(f) if w == what and ctx(c) == mine]
+    # explicit `raise <handled type>` statements in the guarded body (directly or in same-module helpers it calls) are part of
+    # the construct: they widen the set of situations in which the handler - and the mutator in it - runs
+    raisers = set()
+    h = m.enclosing(call, (ast.ExceptHandler,))
+    tr = m.enclosing(h, (ast.Try,)) if h is not None else None
+    if tr is not None and h.type is not None:
+        types = {pyfront.dotted(h.type)} if not isinstance(h.type, ast.Tuple) else {pyfront.dotted(e) for e in h.type.elts}
+        alias = {"IOError": "OSError", "EnvironmentError": "OSError"}
+        types = {alias.get(t, t) for t in types}
+
+        def explicit(node_list, where, depth):
+            for st in node_list:
+                for x in ast.walk(st):
+                    if isinstance(x, ast.Raise) and x.exc is not None:
+                        e = x.exc.func if isinstance(x.exc, ast.Call) else x.exc
+                        n_ = pyfront.dotted(e)
+                        if alias.get(n_, n_) in types:
+                            raisers.add(where)
+                    if isinstance(x, ast.Call) and depth > 0:
+                        cn = pyfront.call_name(x) or ""
+                        tgt = None
+                        if cn.startswith("self."):
+                            cls = m.qualname_of(f).split(".")[0]
+                            tgt = m.functions.get("%s.%s" % (cls, cn[5:]))
+                        elif cn in m.functions:
+                            tgt = m.functions[cn]
+                        if tgt is not None and tgt is not f:
+                            explicit(tgt.body, cn, depth - 1)
+        explicit(tr.body, "<try body>", 2)
+    if raisers:
+        mine += " [raised explicitly by: %s]" % ", ".join(sorted(raisers))
+    same = [c for c, w in pycalls.mutator_calls(f) if w == what and ctx(c) == mine.split(" [raised")[0]]
     same.sort(key=lambda c: (c.lineno, c.col_offset))
     text = what + ("(...) in " + mine if mine else "(...)")
     if len(same) > 1:
